@@ -478,6 +478,14 @@ func (s *s1) checkC04(i int, out *TxnOutcome) {
 	if e.Stopped() {
 		return
 	}
+	// did garbage collection take part in this transaction (per the model)? The listed
+	// findings KF03-KF05 need it; the same symptom without it is a different defect.
+	gcTag := "direct:"
+	if out.RPCError == "" {
+		if r0 := s.refOutcome(out); r0.GCd > 0 {
+			gcTag = "gc-chain:"
+		}
+	}
 	if !out.Failed {
 		e.Probes["c04_commit_checked"]++
 		if out.After.Rows() > 0 {
@@ -489,7 +497,7 @@ func (s *s1) checkC04(i int, out *TxnOutcome) {
 			return
 		}
 		if ps := integrityProblems(e.Sch, out.After); len(ps) > 0 {
-			e.ViolateK("C04.integrity", integrityKey(e.Sch, ps[0]), "after committed transaction %d: %s\nops: %s\nbefore:\n%s", i, strings.Join(ps, "; "), shortOps(out.Ops), trimStr(out.Before.String(), 3000))
+			e.ViolateK("C04.integrity", gcTag+integrityKey(e.Sch, ps[0]), "after committed transaction %d: %s\nops: %s\nbefore:\n%s", i, strings.Join(ps, "; "), shortOps(out.Ops), trimStr(out.Before.String(), 3000))
 			return
 		}
 		want := recomputeRefs(e.Sch, out.After)
@@ -523,7 +531,7 @@ func (s *s1) checkC04(i int, out *TxnOutcome) {
 	case ref.CommitErr == "referential integrity violation" && !out.Failed:
 		e.Violate("C04.accepts-dangling", "transaction %d leaves a dangling strong reference (or deletes a referenced row) but was accepted\nops: %s\nbefore:\n%s", i, shortOps(out.Ops), trimStr(out.Before.String(), 3000))
 	case ref.CommitErr == "constraint violation" && !ref.FinalDup && !out.Failed:
-		e.Violate("C04.accepts-weak-min", "transaction %d empties a weak-reference column below its minimum but was accepted\nops: %s", i, shortOps(out.Ops))
+		e.ViolateK("C04.accepts-weak-min", gcTag, "transaction %d empties a weak-reference column below its minimum but was accepted\nops: %s", i, shortOps(out.Ops))
 	case ref.CommitErr == "" && out.Failed && errClass(out.CommitErr) == "referential integrity violation":
 		e.Violate("C04.rejects-valid", "transaction %d was rejected with %q but its final state satisfies referential integrity\nops: %s\nbefore:\n%s", i, out.CommitErr, shortOps(out.Ops), trimStr(out.Before.String(), 3000))
 	case ref.CommitErr != "" && out.Failed:
@@ -533,7 +541,7 @@ func (s *s1) checkC04(i int, out *TxnOutcome) {
 		// accepted by both: garbage collection and pruning must have produced the same rows
 		if d := DiffStates(ref.After, out.After, e.Sch.TableNames, refColumns(e.Sch)); d != "" {
 			if rowSetsDiffer(ref.After, out.After) {
-				e.Violate("C04.gc-prune-result", "transaction %d: set of surviving rows / reference columns differs from the model (model vs database):\n%s\nops: %s", i, d, shortOps(out.Ops))
+				e.ViolateK("C04.gc-prune-result", gcTag, "transaction %d: set of surviving rows / reference columns differs from the model (model vs database):\n%s\nops: %s", i, d, shortOps(out.Ops))
 			}
 		}
 	}
